@@ -231,6 +231,17 @@ class Model:
             if not need <= t.cols:
                 raise ModelError("sort columns missing")
             rows = m_sort(t.rows, terms)
+            if self.stable_sorts and prog[1][0] == "sort" and prog[1][2]:
+                # directly adjacent sorts: a stable sort of a stably sorted list is the sort by the
+                # concatenated term list (new terms first) of what lies below them
+                all_terms, inner = list(terms), prog[1]
+                while inner[0] == "sort":
+                    all_terms += list(inner[2])
+                    inner = inner[1]
+                base = self.eval(inner)
+                rows = m_sort(base.rows, all_terms)
+                cols_all = frozenset(set().union(*[ecols(e) for e, _ in all_terms]))
+                return MRel(t.cols, rows, sort_is_total(rows, all_terms) or base.det and base.engine in self.ordered_engines, cols_all, True, engine=t.engine)
             if self.stable_sorts and t.det and t.sort_cols is not None and t.sort_visible and not sort_is_total(rows, terms):
                 return MRel(t.cols, rows, True, frozenset(need) | t.sort_cols, True, engine=t.engine)
             # in an engine that keeps row order (iteration) a stable sort of a determined list is
